@@ -394,10 +394,8 @@ theorem C07_handler_error (cfg : Cfg) (n : Name) (as : List Attr) (rs1 : RS) (pr
 or `io.ErrUnexpectedEOF`, a (wrapped) stanza or stream error — and whatever it read or wrote,
 the step never ends the session *cleanly* -/
 theorem C07_handler_never_ends_cleanly (cfg : Cfg) (n : Name) (as : List Attr) (rs1 : RS) (prog : Prog)
-    (inv : Option Inv) (w : List Tok) : handleElem cfg n as rs1 prog ≠ .stop inv w .clean := by
-  unfold handleElem
-  simp only
-  cases hr : prog.ret <;> simp only [hr] <;> (repeat' split) <;> simp
+    (inv : Option Inv) (w : List Tok) : handleElem cfg n as rs1 prog ≠ .stop inv w .clean :=
+  handleElem_never_clean cfg n as rs1 prog inv w
 
 theorem verdict_eof {d d' : Nat} {t : Tok} {rest : List Tok}
     (h : verdict d t rest = (d', Rd.eof)) : t = .stop ⟨nsStream, "stream"⟩ := by
